@@ -111,6 +111,16 @@ def gen_cases(tier, seed):
                 cases.append(dict(kind='reduce', degree=p, dim=dim, net=net, rows=0, src='library'))
                 cases.append(dict(kind='reduce', degree=p, dim=dim, net=net, rows=0, src='model'))
                 cases.append(dict(kind='reduce_multi', degree=p, nums=list(nums), dim=dim, net=net, rows=0))
+        # data variety: negative / fractional / huge / tiny coordinates, coincident points, closed and collinear polygons
+        for dim in dims[:3]:
+            for net in A.VARIETY_NETS:
+                for t in (1, 2) if q else nums:
+                    cases.append(dict(kind='elevate', degree=p, num=t, dim=dim, net=net, rows=0, variety=True))
+                # (the exact elevation of a non-integer polygon is not representable in floats: the library's own is reduced)
+                cases.append(dict(kind='reduce', degree=p, dim=dim, net=net, rows=0, variety=True,
+                                  src='library' if net in ('negfrac', 'tiny') else 'model'))
+                if net in ('coincident', 'closed', 'negfrac'):
+                    cases.append(dict(kind='elevate', degree=p, num=1, dim=dim, net=net, rows=2, variety=True))
         # rows of points
         for dim in dims[:3]:
             for net in ['unit:0', 'unit:%d' % (p // 2), 'unit:%d' % p, 'coded'] + seeded[:1]:
